@@ -40,27 +40,31 @@ def takeOp : Str → Option (Op × Str)
 /-- `[^\s;)]` -/
 def isArbChar (c : Nat) : Bool := !(isWs c) && c != 59 && c != 41
 
+/-- what `Specifier._regex` demands of the version text of a non-`===` clause, given how it scans:
+a trailing `.*` only after `==`/`!=` and only on a bare release; a local label only after `==`/`!=`;
+at least two release components after `~=` -/
+def clauseForm (op : Op) (v : Ver) (wild : Bool) : Bool :=
+  (!wild || (v.pre.isNone && v.post.isNone && v.dev.isNone && v.loc.isNone)) &&
+  (v.loc.isNone || op == .eq || op == .ne) &&
+  (op != .compatible || decide (2 ≤ v.release.length))
+
+/-- `Specifier.__init__`: `_regex.search(spec)`, then `(group("operator").strip(), group("version").strip())`.
+The pattern is anchored (`^\s* op version \s*$`, `\s` ASCII), so the version group is what follows the operator
+without the surrounding white space; it must be, in full, a version (`scanCore` leaves nothing over), optionally
+followed by `.*`.  For `===` it is any run of `[^\s;)]`. -/
 def parseSpec (s : Str) : Option Spec :=
   match takeOp (s.dropWhile isWs) with
   | none => none
   | some (op, r) =>
-    let r := r.dropWhile isWs
+    let text := stripBy isWs r
     if op == .arbitrary then
-      let rest := r.dropWhile isArbChar
-      if (rest.dropWhile isWs).isEmpty then some ⟨op, strip (r.takeWhile isArbChar)⟩ else none
+      if text.all isArbChar then some ⟨op, strip text⟩ else none
     else
-      match scanCore r with
-      | none => none
-      | some (v, rest) =>
-        let bare := v.pre.isNone && v.post.isNone && v.dev.isNone && v.loc.isNone
-        let wild := (op == .eq || op == .ne) && bare && startsWith rest [46, 42]
-        let rest := if wild then rest.drop 2 else rest
-        let okForm :=
-          (op == .eq || op == .ne || v.loc.isNone) &&
-          (op != .compatible || v.release.length ≥ 2)
-        if okForm && (rest.dropWhile isWs).isEmpty then
-          some ⟨op, strip (r.take (r.length - rest.length))⟩
-        else none
+      let wild := (op == .eq || op == .ne) && endsWith text [46, 42]
+      let vtext := if wild then text.take (text.length - 2) else text
+      match scanCore vtext with
+      | some (v, []) => if clauseForm op v wild then some ⟨op, text⟩ else none
+      | _ => none
 
 /-- `Specifier.__str__` -/
 def Spec.str (sp : Spec) : Str := sp.op.str ++ sp.ver
